@@ -1122,6 +1122,28 @@ class Interp:
             return bv.mul(args[0], args[1])
         if name == "bswap":
             return bv.bswap(args[0])
+        if name == "bitreverse":
+            return tuple(reversed(args[0]))
+        if name in ("ctpop", "cttz", "ctlz", "cttz_nonzero", "ctlz_nonzero"):
+            x = args[0]
+            w = len(x)
+            cv = bv.const_value(x)
+            if cv is not None:
+                if name == "ctpop":
+                    r = bin(cv).count("1")
+                elif name.startswith("cttz"):
+                    r = w if cv == 0 else (cv & -cv).bit_length() - 1
+                else:
+                    r = w - cv.bit_length()
+                return bv.const(r, 32)
+            if name == "ctpop":
+                return bv.lin(32, [(bv.zext((b,), 32), 1) for b in x])
+            # count of zeros below the lowest / above the highest set bit: priority chain over the bits
+            order = x if name.startswith("cttz") else tuple(reversed(x))
+            res = bv.const(w, 32)
+            for i in reversed(range(w)):
+                res = bv.ite(order[i], bv.const(i, 32), res)
+            return res
         if name in ("size_of", "align_of", "min_align_of"):
             d = ty.get(ga[0]["ty"])
             return bv.const(d["size"] if name == "size_of" else d["align"], 64)
